@@ -29,6 +29,8 @@ structure Ctx where
   sd : SD.State F F := {}
   sv : Option SvCtx := none
   eo : Option EoCtx := none
+  world : World.Ctx := {}
+  pw : ProbWorld.Ctx := {}
 
 def fle (a b : F) : Bool := decide (a ≤ b)
 def flt (a b : F) : Bool := decide (a < b)
@@ -214,7 +216,13 @@ def stepRest (c : Ctx) (toks : List String) : Ctx × String :=
         | none => (c, "no-best")
       | none => (c, "fresh")
     | none => (c, "bad-op")
-  | _ => (c, "bad-op")
+  | _ =>
+    match World.stepCmd c.world toks with
+    | some (w, o) => ({ c with world := w }, o)
+    | none =>
+      match ProbWorld.stepCmd c.pw toks with
+      | some (w, o) => ({ c with pw := w }, o)
+      | none => (c, "bad-op")
 
 
 def step (c : Ctx) (line : String) : Ctx × String :=
@@ -320,6 +328,12 @@ def step (c : Ctx) (line : String) : Ctx × String :=
         ({ c with eo := some { heap := h, obj := o, vis := #[lo, hi] } }, "ok")
       else (c, "bad-op")
     | _, _, _ => (c, "bad-op")
+  | "eo.arri" :: rest =>      -- an integer-typed array on the implementation side; same values here
+    match c.eo, parseFs rest with
+    | some e, some fs =>
+      let (h, r) := e.heap.alloc fs
+      ({ c with eo := some { e with heap := h, vis := e.vis.push r } }, toString e.vis.size)
+    | _, _ => (c, "bad-op")
   | "eo.arr" :: rest =>
     match c.eo, parseFs rest with
     | some e, some fs =>
